@@ -63,8 +63,14 @@ static int on_url(http_parser *parser, const char *at, size_t length)
 			connection->status_code = HTTP_NOT_FOUND;
 			return -1;
 		}
-		/* The handler's create() runs once the complete request line turned out to be valid, see read_start_line(). */
-		connection->handler = handler;
+		if (handler->create != NULL) {
+			if (unlikely(handler->create(connection) < 0)) {
+				connection->status_code = HTTP_INTERNAL_SERVER_ERROR;
+				return -1;
+			}
+			/* From now on the handler's object must be released together with the connection, see read_start_line(). */
+			connection->handler = handler;
+		}
 
 		connection->parser_settings.on_header_field = handler->on_header_field;
 		connection->parser_settings.on_header_value = handler->on_header_value;
@@ -130,19 +136,16 @@ static enum bs_read_callback_return read_start_line(void *context, uint8_t *buf,
 			connection->status_code = HTTP_BAD_REQUEST;
 		}
 		send_http_error_response(connection);
-		free_connection(connection);
-		return BS_CLOSED;
-	}
-
-	const struct url_handler *handler = connection->handler;
-	if (handler != NULL) {
-		connection->handler = NULL;
-		if ((handler->create != NULL) && (unlikely(handler->create(connection) < 0))) {
-			connection->status_code = HTTP_INTERNAL_SERVER_ERROR;
-			send_http_error_response(connection);
+		if ((connection->handler != NULL) && (connection->handler->destroy != NULL)) {
+			/*
+			 * The request target matched and the handler created its object, but the rest
+			 * of the request line is malformed. The handler releases its object and the connection.
+			 */
+			connection->handler->destroy(connection);
+		} else {
 			free_connection(connection);
-			return BS_CLOSED;
 		}
+		return BS_CLOSED;
 	}
 	return BS_OK;
 }
